@@ -16,6 +16,14 @@
 //     also pass `c01ssa wf` (the Lean `run` reads an undefined value as 0, so a missing definition would not show
 //     in the outcomes).
 //
+// The four narrow sign extensions i32.extend8_s, i32.extend16_s, i64.extend8_s, i64.extend16_s (`SExtend x, 8->32`
+// …) are outside the SSA pass model.  A function that contains one (in live or dead code) is checked against the
+// EXTENDED model, oracle topic `c01frontx` (Wz.Model.FrontendSLX): `c01frontx lower` == Format(), `c01frontx wt`,
+// `c01frontx run` (spec == ssa) and `c01frontx runssa` on the converted REAL text before and after the REAL RunPasses
+// (`sext:<r>:<from>:<ty>:<x>` tokens); there is no wf / opt for those, only the harness's own check that every use
+// has a definition.  For every other function everything above is done with `c01front`, and on a sample
+// `c01frontx lower` must equal `c01front lower` (C01:front-ext-model-not-conservative).
+//
 // Replay: -replay FILE with {"fn": "<function text>"[, "args": ["<hex,…|->", …]]} or a report whose first violation
 // has such an input.  -mutate N perturbs the REAL side before the comparisons (self-test that they are live).
 package main
@@ -45,7 +53,7 @@ import (
 
 var (
 	rep     *hx.Report
-	mutate  = flag.Int("mutate", 0, "self-test: perturb the REAL output before comparing (1 swap Isub operands, 2 Jump blk_ret -> Return, 3 change an Iconst, 4 drop the locals' zero constant)")
+	mutate  = flag.Int("mutate", 0, "self-test: perturb the REAL output before comparing (1 swap Isub operands, 2 Jump blk_ret -> Return, 3 change an Iconst, 4 drop the locals' zero constant, 5 first SExtend: 8->N becomes 16->N)")
 	wfEvery = flag.Int("wfevery", 0, "ask `c01front wf` for every N-th function (0 = tier default)")
 )
 
@@ -149,8 +157,15 @@ var ssaDiv = map[string]string{"Sdiv": "sdiv", "Udiv": "udiv", "Srem": "srem", "
 var ssaCond = map[string]bool{"eq": true, "neq": true, "lt_s": true, "ge_s": true, "gt_s": true, "le_s": true,
 	"lt_u": true, "ge_u": true, "gt_u": true, "le_u": true}
 
-// toTokens converts the canonical lines of a one-block Format() text into the token syntax of `c01ssa`.
-func toTokens(lines []string) (string, error) {
+// toTokens converts the canonical lines of a one-block Format() text into the token syntax of `c01ssa` (plus
+// `sext:<r>:<from>:<ty>:<x>` of `c01frontx` for `SExtend x, 8->32` etc.).  undef names the first use of a value that
+// no parameter or earlier instruction defines ("" when there is none).
+func toTokens(lines []string) (toks string, undef string, err error) {
+	toks, err = toTokens2(lines, &undef)
+	return
+}
+
+func toTokens2(lines []string, undef *string) (string, error) {
 	if len(lines) == 0 {
 		return "", fmt.Errorf("no lines")
 	}
@@ -181,6 +196,9 @@ func toTokens(lines []string) (string, error) {
 			v, err := valID(s)
 			if err != nil {
 				return nil, err
+			}
+			if _, ok := types[v]; !ok && *undef == "" {
+				*undef = s
 			}
 			r[k] = v
 		}
@@ -264,14 +282,20 @@ func toTokens(lines []string) (string, error) {
 			}
 			out = append(out, fmt.Sprintf("%s:%d:%s:%d", ssaUn[op], r, ty, v[0]))
 		case (op == "SExtend" || op == "UExtend") && len(args) == 2:
-			if args[1] != "32->64" || ty != "i64" {
-				return "", &unmodelled{l}
-			}
 			v, err := ids(args[:1])
 			if err != nil {
 				return "", err
 			}
-			out = append(out, fmt.Sprintf("%s:%d:i64:%d", strings.ToLower(op), r, v[0]))
+			switch {
+			case args[1] == "32->64" && ty == "i64":
+				out = append(out, fmt.Sprintf("%s:%d:i64:%d", strings.ToLower(op), r, v[0]))
+			case op == "SExtend" && (args[1] == "8->32" || args[1] == "16->32") && ty == "i32",
+				op == "SExtend" && (args[1] == "8->64" || args[1] == "16->64") && ty == "i64":
+				from, _, _ := strings.Cut(args[1], "->")
+				out = append(out, fmt.Sprintf("sext:%d:%s:%s:%d", r, from, ty, v[0]))
+			default:
+				return "", &unmodelled{l}
+			}
 		case ssaDiv[op] != "" && len(args) == 2:
 			v, err := ids(args)
 			if err != nil {
@@ -326,6 +350,19 @@ func mutateLines(lines []string, f *fnDef) ([]string, bool) {
 	case 4:
 		if len(f.locals) > 0 && len(out) > 1 && strings.Contains(out[1], " = Iconst_") && strings.HasSuffix(out[1], " 0x0") {
 			return append(out[:1], out[2:]...), true
+		}
+	case 5:
+		for k, l := range out {
+			if !strings.Contains(l, " = SExtend ") {
+				continue
+			}
+			for _, to := range []string{"32", "64"} {
+				if strings.HasSuffix(l, ", 8->"+to) {
+					out[k] = strings.TrimSuffix(l, "8->"+to) + "16->" + to
+					return out, true
+				}
+			}
+			return out, false // the first SExtend line is not from 8 bits
 		}
 	}
 	return out, false
@@ -412,6 +449,14 @@ func (w *worker) check(j *job) {
 	}
 	rep.Case(text)
 	countFn(f)
+	// a function with a narrow sign extension is checked against the EXTENDED model (topic c01frontx: no pass
+	// model, no wellFormed there); every other function against c01front as before
+	ext := f.hasNarrow()
+	topic := "c01front"
+	if ext {
+		topic = "c01frontx"
+		rep.Count("ext:functions")
+	}
 	if j.verbose {
 		fmt.Println("function:", text)
 		fmt.Printf("body bytes: % x\n", m.CodeSection[0].Body)
@@ -433,7 +478,7 @@ func (w *worker) check(j *job) {
 	realCanon := strings.Join(realLines, " | ")
 
 	// ---- 1. correspondence of the text
-	model := w.ask("c01front lower " + text)
+	model := w.ask(topic + " lower " + text)
 	if j.verbose {
 		fmt.Println("real :", realCanon)
 		fmt.Println("model:", model)
@@ -442,11 +487,14 @@ func (w *worker) check(j *job) {
 	if !textEqual {
 		k := firstDiff(strings.Split(model, " | "), realLines)
 		violate("correspondence", "C01:front-model-differs",
-			fmt.Sprintf("Format() of the real front end and `c01front lower` differ, first at line %d", k), model, realCanon)
+			fmt.Sprintf("Format() of the real front end and `%s lower` differ, first at line %d", topic, k), model, realCanon)
 	} else {
 		rep.Count("text:equal")
+		if ext {
+			rep.Count("ext:text-equal")
+		}
 	}
-	if a := w.ask("c01front wt " + text); a != "1" {
+	if a := w.ask(topic + " wt " + text); a != "1" {
 		violate("correspondence", "C01:front-wellTyped-rejects-valid", "the model's wellTyped rejects a function the real validator accepts", "1", a)
 	}
 	every := *wfEvery
@@ -456,7 +504,16 @@ func (w *worker) check(j *job) {
 			every = 10
 		}
 	}
-	wfAsked := j.hand || j.index%every == 0
+	sampled := j.hand || j.index%every == 0
+	wfAsked := sampled && !ext
+	if sampled && !ext {
+		// the extended model is conservative: on a function without the new instructions it is the base model
+		rep.Count("ext:conservativity-asked")
+		if a := w.ask("c01frontx lower " + text); a != model {
+			violate("correspondence", "C01:front-ext-model-not-conservative",
+				"`c01frontx lower` and `c01front lower` differ on a function without narrow sign extensions", model, a)
+		}
+	}
 	if wfAsked {
 		rep.Count("wf:asked")
 		if a := w.ask("c01front wf " + text); a != "1" {
@@ -465,7 +522,7 @@ func (w *worker) check(j *job) {
 	}
 
 	// ---- 2. semantics of the REAL output
-	realTok, err := toTokens(realLines)
+	realTok, realUndef, err := toTokens(realLines)
 	if err != nil {
 		if _, ok := err.(*unmodelled); ok {
 			rep.Count("real:unmodelled-extend")
@@ -499,7 +556,11 @@ func (w *worker) check(j *job) {
 		violate("correspondence", "C01:front-runpasses-panics", fmt.Sprintf("the real RunPasses panics on the front end's output: %v", p), "no panic", fmt.Sprint(p))
 	} else {
 		optLines := canonLines(optText)
-		if t, err := toTokens(optLines); err != nil {
+		t, optUndef, err := toTokens(optLines)
+		if err == nil && !ext && strings.Contains(t, " sext:") {
+			err = &unmodelled{"SExtend from 8/16 bits in a function without a narrow sign extension"}
+		}
+		if err != nil {
 			rep.Count("real:opt-unconvertible")
 			if j.verbose {
 				fmt.Println("real output after RunPasses not convertible:", err)
@@ -507,6 +568,10 @@ func (w *worker) check(j *job) {
 		} else {
 			optTok = t
 			rep.Count("real:opt-converted")
+			if optUndef != "" {
+				violate("impl-violation", "C01:front-real-optimized-output-not-wellFormed",
+					"the REAL front end's output after the REAL RunPasses uses "+optUndef+", which nothing defines: "+t, "every use has a definition", optUndef)
+			}
 			for k := len(optLines); k < len(realLines); k++ {
 				rep.Count("real:opt-removed-instruction")
 			}
@@ -522,7 +587,17 @@ func (w *worker) check(j *job) {
 
 	// `runssa` reads a value without a definition as 0: the semantic comparison below means something only on
 	// well-formed SSA, so the REAL output itself must pass the SSA model's wellFormed
-	if realTok != "" {
+	if realTok != "" && !ext && strings.Contains(realTok, " sext:") {
+		rep.Count("real:unmodelled-extend") // must not happen: a narrow SExtend without a narrow instruction in the source
+		realTok = ""
+	}
+	if realTok != "" && realUndef != "" && ext {
+		// for the functions of the extended model this is the only well-formedness check (c01ssa has no `sext`);
+		// for the others `c01ssa wf` below says the same and more
+		violate("impl-violation", "C01:front-real-output-not-wellFormed",
+			"the REAL front end's output uses "+realUndef+", which nothing defines: "+realTok, "every use has a definition", realUndef)
+	}
+	if realTok != "" && !ext {
 		if a := w.ask("c01ssa wf " + realTok); a != "1" {
 			violate("impl-violation", "C01:front-real-output-not-wellFormed",
 				"SsaPass.wellFormed rejects the REAL front end's output (a use without a definition, a type mismatch, …): "+realTok, "1", a)
@@ -536,18 +611,26 @@ func (w *worker) check(j *job) {
 	}
 
 	for _, av := range allArgs {
-		ans := w.ask(fmt.Sprintf("c01front run %s %s %s %s %s", tysText(f.params), tysText(f.results), tysText(f.locals), av,
+		ans := w.ask(fmt.Sprintf("%s run %s %s %s %s %s", topic, tysText(f.params), tysText(f.results), tysText(f.locals), av,
 			strings.Join(strings.Fields(text)[3:], " ")))
 		parts := strings.Fields(ans)
-		if len(parts) != 3 || !strings.HasPrefix(parts[0], "spec=") || !strings.HasPrefix(parts[1], "ssa=") || !strings.HasPrefix(parts[2], "opt=") {
-			hx.Fatal("c01front run answered %q", ans)
-		}
-		spec, mssa, mopt := parts[0][5:], parts[1][4:], parts[2][4:]
+		var spec, mssa, mopt string
 		switch {
-		case strings.HasPrefix(spec, "ok:"):
-			rep.Count("out:values")
+		case !ext && len(parts) == 3 && strings.HasPrefix(parts[0], "spec=") && strings.HasPrefix(parts[1], "ssa=") && strings.HasPrefix(parts[2], "opt="):
+			spec, mssa, mopt = parts[0][5:], parts[1][4:], parts[2][4:]
+		case ext && len(parts) == 2 && strings.HasPrefix(parts[0], "spec=") && strings.HasPrefix(parts[1], "ssa="):
+			spec, mssa = parts[0][5:], parts[1][4:]
+			mopt = spec // the extended model has no passes
 		default:
-			rep.Count("out:" + spec)
+			hx.Fatal("%s run answered %q", topic, ans)
+		}
+		outcome := "out:" + spec
+		if strings.HasPrefix(spec, "ok:") {
+			outcome = "out:values"
+		}
+		rep.Count(outcome)
+		if ext {
+			rep.Count("ext:" + outcome)
 		}
 		if j.verbose {
 			fmt.Printf("args %s: %s\n", av, ans)
@@ -557,7 +640,7 @@ func (w *worker) check(j *job) {
 				"the reference semantics and the Lean semantics of the MODEL's lowering (plain / after the model's passes) differ on args "+av, "spec="+spec, ans)
 		}
 		if realTok != "" {
-			o := w.ask("c01front runssa " + av + " " + realTok)
+			o := w.ask(topic + " runssa " + av + " " + realTok)
 			if j.verbose {
 				fmt.Printf("args %s: real ssa: %s\n", av, o)
 			}
@@ -567,7 +650,7 @@ func (w *worker) check(j *job) {
 			}
 		}
 		if optTok != "" {
-			o := w.ask("c01front runssa " + av + " " + optTok)
+			o := w.ask(topic + " runssa " + av + " " + optTok)
 			if j.verbose {
 				fmt.Printf("args %s: real ssa after RunPasses: %s\n", av, o)
 			}
@@ -613,6 +696,16 @@ func countFn(f *fnDef) {
 	}
 	if f.uninitReads > 0 {
 		rep.Count("fn:reads-uninitialised-local")
+	}
+	if f.hasNarrow() {
+		rep.Count("fn:has-narrow-extend")
+		live := false
+		for k, i := range f.body {
+			live = live || (narrowExt[i.name] && (ri < 0 || k < ri))
+		}
+		if live {
+			rep.Count("fn:has-live-narrow-extend")
+		}
 	}
 	for k := 0; k < f.uninitReads; k++ {
 		rep.Count("in:local.get-of-uninitialised-local")
@@ -772,7 +865,7 @@ func main() {
 	if err := checkOpcodeTable(); err != nil {
 		hx.Fatal("%v", err)
 	}
-	rep = hx.NewReport("C01", "front-end tie: functions of the straight-line integer fragment (0..4 params, 0..3 results, 0..4 locals of i32/i64: none / one type only / both; bodies of 0..40 generated instructions kept type-correct on a type stack: boundary-heavy constants, local.get/set/tee with reads of uninitialised locals, drop, select, add..rotr, comparisons, eqz, clz/ctz/popcnt, wrap/extend, div/rem with divisors 0 and -1 and dividend min made likely; explicit `return` in 1/4 of them, with or without dead code; fix-up to the result types) plus a hand-written and a systematic corpus (every operator at each type); each is encoded as a real module, accepted by the REAL decoder+validator, lowered by the REAL frontend.Compiler.LowerToSSA; Format() == `c01front lower` line by line without renumbering; wt / wf accept; Lean SSA semantics of the REAL output (before and after the REAL RunPasses) == reference semantics == model's lowering (plain / optimised) on 3 boundary-heavy argument vectors (corpus: all pairs of 0,1,-1,min,max); distinct = distinct function texts")
+	rep = hx.NewReport("C01", "front-end tie: functions of the straight-line integer fragment (0..4 params, 0..3 results, 0..4 locals of i32/i64: none / one type only / both; bodies of 0..40 generated instructions kept type-correct on a type stack: boundary-heavy constants, local.get/set/tee with reads of uninitialised locals, drop, select, add..rotr, comparisons, eqz, clz/ctz/popcnt, wrap/extend incl. the narrow sign extensions extend8_s/extend16_s, div/rem with divisors 0 and -1 and dividend min made likely; explicit `return` in 1/4 of them, with or without dead code; fix-up to the result types) plus a hand-written and a systematic corpus (every operator at each type); each is encoded as a real module, accepted by the REAL decoder+validator, lowered by the REAL frontend.Compiler.LowerToSSA; Format() == `c01front lower` line by line without renumbering; wt / wf accept; Lean SSA semantics of the REAL output (before and after the REAL RunPasses) == reference semantics == model's lowering (plain / optimised) on 3 boundary-heavy argument vectors (corpus: all pairs of 0,1,-1,min,max); functions with a narrow sign extension (counter ext:functions; corpus: each on boundary constants around 2^7, 2^8, 2^15, 2^16, with junk above) go to the extended model `c01frontx` (lower / wt / run spec == ssa / runssa on the real text before and after the real RunPasses; no wf, no opt), the others to `c01front` and, on a sample, `c01frontx lower` == `c01front lower`; distinct = distinct function texts")
 	if *mutate != 0 {
 		rep.Note("SELF-TEST: -mutate %d perturbs the real output; violations are expected", *mutate)
 	}
